@@ -177,7 +177,7 @@ def base_scenarios(ctx):
             out.append(dict(kind="smc-thr", bs=bs, n=n, table=table, thrs=[6, 5] if table is TABLES[2] else [5, 3, 2]))
             out.append(dict(kind="smc-q", bs=bs, n=n, table=table, qs=[0.5, 0.5, 0.5]))
     for i, sc in enumerate(out):
-        sc["seed"] = 100 + (ctx.seed * 31 + i) % 50
+        sc["seed"] = 0 if i % 7 == 3 else 100 + (ctx.seed * 31 + i) % 50
     return out
 
 
